@@ -1363,6 +1363,9 @@ def camp_c19(rnd, tier):
                     v4 = list(vals)
                     v4[-1] = v4[-1] + 1 if v4[-1] < tmax(ty) else v4[-1] - 1
                     b.eq(objs[0], b.newt(kind, ty, "from_vec", Seqn.from_values(v4)))
+                    v6 = list(vals)
+                    v6[0] = v6[0] + 1 if v6[0] < tmax(ty) else v6[0] - 1
+                    b.eq(objs[0], b.newt(kind, ty, "from_vec", Seqn.from_values(v6)))
                     if len(vals) >= 2 and vals[-1] != vals[-2]:
                         v5 = list(vals)
                         v5[-1], v5[-2] = v5[-2], v5[-1]
@@ -1438,9 +1441,10 @@ def camp_c19(rnd, tier):
                 v2[j] ^= 1
                 d = b.newb(kind, ps[0], Seqn.from_values(v2))
                 b.eq(objs[0], d)
-                v4 = list(vals)
-                v4[-1] ^= 1
-                b.eq(objs[0], b.newb(kind, "new" if "new" in paths else "bools", Seqn.from_values(v4)))
+                for j4 in (-1, 0):
+                    v4 = list(vals)
+                    v4[j4] ^= 1
+                    b.eq(objs[0], b.newb(kind, "new" if "new" in paths else "bools", Seqn.from_values(v4)))
             if kind in ("BV", "BVM") and ends_with_one and len(vals) <= 3000:
                 # the same set of positions listed with repetitions and in another order
                 ones_at = [i for i, v in enumerate(vals) if v == 1]
@@ -1652,6 +1656,13 @@ def space_tree_inputs(rnd, tier, ty, huff):
     dom = 1500000 if tier == "quick" else 4000000
     out.append(("huge_dominant", runs_profile(rnd, list(range(16)), [dom] + [70000] * 15)))
     out.append(("huge_one_run", Seqn.from_runs([([0], dom)] + [([1 + (i % 9)], 1) for i in range(78)])))
+    # the order of the sequence must not matter for the code: the dominant symbol occurs once early
+    # and then as one long final (initial) run; the others in short runs in between
+    dsym, others = min(T, 4), [x for x in range(0, min(T, 16) + 1) if x != min(T, 4)]
+    if others:
+        mid = [([rnd.choice(others)], rnd.choice([10, 40, 90])) for _ in range(200)]
+        out.append(("dominant_final_run", Seqn.from_runs([([dsym], 1)] + mid + [([dsym], 60000)])))
+        out.append(("dominant_initial_run", Seqn.from_runs([([dsym], 60000)] + mid + [([dsym], 1)])))
     out.append(("big_single", Seqn.from_runs([([min(T, 9)], big)])))
     out.append(("big_two", runs_profile(rnd, [0, min(T, 200)], [big - 5, 5])))
     return out
